@@ -43,6 +43,34 @@ func impchecksStream(b *builder) {
 		add(fmt.Sprintf("BO_ 1 m : %d A\n", bytes), sg("a", "", 0, 4, 1, "B"))
 		add(fmt.Sprintf("BO_ 1 m : %d A\n", bytes))
 	}
+	// sign x size x byte order x role of the signal: the integer range of a signal type is computed from (size, signed)
+	// before the size is checked, so that every size at the edges (0, 1, 2, 31..33, 63..65) is met with both value types,
+	// as a standard signal, as an enum signal (VAL_), as a float signal (SIG_VALTYPE_), as the multiplexor switch and
+	// as a multiplexed signal, in both byte orders, with a plain range and with a scaled one
+	sgs := func(name, mux string, start, size, order int, sign, scale, rng string) string {
+		return fmt.Sprintf(" SG_ %s %s: %d|%d@%d%s %s %s \"\" B\n", name, mux, start, size, order, sign, scale, rng)
+	}
+	for _, sign := range []string{"+", "-"} {
+		for _, size := range []int{0, 1, 2, 7, 8, 31, 32, 33, 63, 64, 65} {
+			for _, order := range []int{0, 1} {
+				start := 0
+				if order == 0 {
+					start = 7
+				}
+				for _, sr := range [][2]string{{"(1,0)", "[0|0]"}, {"(0.5,-3)", "[-10|10]"}} {
+					add("BO_ 1 m : 8 A\n", sgs("a", "", start, size, order, sign, sr[0], sr[1]))
+					add("BO_ 1 m : 8 A\n", sgs("k", "", 63-7+start, 8, order, "-", "(1,0)", "[-128|127]"), sgs("a", "", start, size, order, sign, sr[0], sr[1]))
+				}
+				add("BO_ 1 m : 8 A\n", sgs("a", "", start, size, order, sign, "(1,0)", "[0|0]"), "VAL_ 1 a 0 \"off\" 1 \"on\" ;\n")
+				add("BO_ 1 m : 8 A\n", sgs("a", "", start, size, order, sign, "(1,0)", "[0|0]"), "SIG_VALTYPE_ 1 a 1;\n")
+				add("BO_ 1 m : 8 A\n", sgs("a", "", start, size, order, sign, "(1,0)", "[0|0]"), "SIG_VALTYPE_ 1 a 2;\n")
+				if size <= 16 {
+					add("BO_ 1 m : 16 A\n", sgs("mx", "M", start, size, order, sign, "(1,0)", "[0|0]"), sgs("p", "m0", start+64, 4, order, "+", "(1,0)", "[0|0]"))
+				}
+				add("BO_ 1 m : 16 A\n", sgs("mx", "M", start+64, 2, order, "+", "(1,0)", "[0|0]"), sgs("p", "m0", start, size, order, sign, "(1,0)", "[0|0]"))
+			}
+		}
+	}
 	// nodes: unknown / placeholder transmitter and receivers
 	for _, tx := range []string{"A", "C", "Vector__XXX"} {
 		for _, rx := range []string{"B", "C", "Vector__XXX", "B,C", "B,Vector__XXX", "A"} {
